@@ -302,7 +302,7 @@ class SimDisk:
         self.fired = []
         # incarnation bookkeeping
         self.live_raws = []
-        self.step_cap = 200000
+        self.step_cap = 3000000
 
     # -- accounting --------------------------------------------------------
     def role(self, path):
